@@ -658,4 +658,179 @@ theorem create_nv_eq (fc : FCtx) (nd : Node) (g : G) (n : Nat) (kl : String) (hb
     List.lookup, blankRow, St.new, relateV, linkFrom, newSmt, setRef, partnerOk, linkKey, buildStmt, mkEnv_nd, mkEnv_fc, hk, atomCall, hc,
     setElem, gfail, St.guard, St.fail]
 
+/-! ### round 3: values — v_val / s_dt as calls, literals, unary and binary operations with the R820 chain -/
+
+theorem v_val_fuel (fc : FCtx) (nd : Node) (g : G) (n : Nat) (hb : BlkOK g.st) :
+    callFn (mkEnv fc nd) (n + 12) v_val [.node] [] g
+      = some (.inst (newVal g.st).1, { g with st := (newVal g.st).2 }) := by
+  obtain ⟨⟨pop, scopes, ok⟩, lval, tys⟩ := g
+  unfold BlkOK at hb
+  simp only at hb
+  cases hc : curBlk scopes with
+  | none =>
+    simp [callFn, v_val, bindParams, exec, evalE, evalA, evalKw, symtabCall, hc, Fr.set, Fr.get, blankRow, St.new,
+      gfail, newVal, St.guard, St.fail, curBlkD, List.lookup]
+  | some b =>
+    obtain ⟨o, ho⟩ := hb b hc
+    have hlt : b < pop.length := by
+      rcases Nat.lt_or_ge b pop.length with h | h
+      · exact h
+      · simp [List.getElem?_eq_none h] at ho
+    simp [callFn, v_val, bindParams, exec, evalE, evalA, evalKw, symtabCall, hc, Fr.set, Fr.get, blankRow, St.new,
+      gfail, newVal, St.guard, St.fail, curBlkD, List.lookup, relateV, linkFrom, ho, List.getElem?_append_left hlt,
+      setRef, partnerOk, linkKey, setElem]
+
+theorem find_v_val (fc : FCtx) (nd : Node) : (mkEnv fc nd).fns.find? (fun x => x.name == "v_val") = some v_val := by rfl
+theorem find_s_dt (fc : FCtx) (nd : Node) : (mkEnv fc nd).fns.find? (fun x => x.name == "s_dt") = some s_dt := by rfl
+
+theorem call_v_val (fc : FCtx) (nd : Node) (g : G) (fr : Fr) (f : Nat) (hf : 13 ≤ f) (hb : BlkOK g.st) :
+    evalE (mkEnv fc nd) f g fr (.call "v_val" [A.node []] [] false)
+      = some (.inst (newVal g.st).1, { g with st := (newVal g.st).2 }) := by
+  obtain ⟨n, rfl⟩ := Nat.exists_eq_add_of_le' hf
+  rw [evalE_call (mkEnv fc nd) (n + 12) g fr "v_val" _ _ _ v_val (by simp [atomCall]) (find_v_val fc nd)]
+  simpa [evalA, evalKw] using v_val_fuel fc nd g n hb
+
+theorem call_s_dt (fc : FCtx) (nd : Node) (g : G) (fr : Fr) (f : Nat) (name : String) (hf : 4 ≤ f) :
+    evalE (mkEnv fc nd) f g fr (.call "s_dt" [A.str name] [] false) = some (.dt name, g) := by
+  obtain ⟨n, rfl⟩ := Nat.exists_eq_add_of_le' hf
+  rw [evalE_call (mkEnv fc nd) (n + 3) g fr "s_dt" _ _ _ s_dt (by simp [atomCall]) (find_s_dt fc nd)]
+  simp [callFn, s_dt, bindParams, exec, evalE, evalA, evalKw, Fr.set, Fr.get, List.lookup]
+
+theorem integer_eq (fc : FCtx) (nd : Node) (g : G) (n : Nat) (v : String) (hb : BlkOK g.st)
+    (hv : nd.strs.lookup "value" = some v) :
+    callFn (mkEnv fc nd) (n + 20) accept_IntegerNode [.node] [] g
+      = some (.inst (buildExpr fc (.int v) g.st).1,
+              { g with st := (buildExpr fc (.int v) g.st).2, tys := ((buildExpr fc (.int v) g.st).1, "integer") :: g.tys }) := by
+  simp [callFn, accept_IntegerNode, bindParams, exec, ↓call_v_val, ↓call_s_dt, hb, evalE, evalA, evalKw, Fr.set, Fr.get,
+    List.lookup, blankRow, St.new, relateV, linkFrom, newVal, setRef, partnerOk, linkKey, buildExpr, hv, kwStr]
+
+@[simp] theorem guard_pop (st : St) (c : Bool) : (st.guard c).pop = st.pop := by cases c <;> rfl
+@[simp] theorem guard_scopes (st : St) (c : Bool) : (st.guard c).scopes = st.scopes := by cases c <;> rfl
+
+/-- the R820 type `accept_UnaryOperationNode` selects, as the model's `typeOf` states it -/
+def unTy (op t : String) : String :=
+  if Flat.boolUnOps.contains op then "boolean" else if op == "cardinality" then "integer" else t
+
+theorem unary_eq (fc : FCtx) (nd : Node) (g g1 : G) (n o b : Nat) (op t : String) (acc : Acc)
+    (hop : nd.strs.lookup "operator" = some op) (hk : nd.kids.lookup "operand" = some acc)
+    (ha : acc [] g = (.inst o, g1)) (hb : BlkOK g1.st) (ho : g1.st.pop[o]? = some (.val b))
+    (ht : g1.tys.lookup o = some t) :
+    callFn (mkEnv fc nd) (n + 30) accept_UnaryOperationNode [.node] [] g
+      = some (.inst (newVal g1.st).1,
+              { g1 with st := ((newVal g1.st).2.new (.uny (newVal g1.st).1 (lowerStr op) o)).2,
+                        tys := ((newVal g1.st).1, unTy (lowerStr op) t) :: g1.tys }) := by
+  obtain ⟨⟨pop, scopes, ok⟩, lval, tys⟩ := g1
+  have hlt : o < pop.length := by
+    rcases Nat.lt_or_ge o pop.length with h | h
+    · exact h
+    · simp [List.getElem?_eq_none h] at ho
+  simp only at ho ht hb
+  by_cases h1 : lowerStr op = "not" ∨ lowerStr op = "empty" ∨ lowerStr op = "not_empty"
+  · simp [callFn, accept_UnaryOperationNode, bindParams, exec, ↓call_v_val, ↓call_s_dt, hb, evalE, evalA, evalKw, Fr.set, Fr.get,
+      List.lookup, blankRow, St.new, relateV, linkFrom, newVal, setRef, partnerOk, linkKey, hop, hk, ha, kwStr, truthy,
+      h1, unTy, Flat.boolUnOps, ho, List.getElem?_append_left hlt]
+  · by_cases h2 : lowerStr op = "cardinality"
+    · simp [callFn, accept_UnaryOperationNode, bindParams, exec, ↓call_v_val, ↓call_s_dt, hb, evalE, evalA, evalKw, Fr.set, Fr.get,
+        List.lookup, blankRow, St.new, relateV, linkFrom, newVal, setRef, partnerOk, linkKey, hop, hk, ha, kwStr, truthy,
+        h1, h2, unTy, Flat.boolUnOps, ho, List.getElem?_append_left hlt]
+    · simp [callFn, accept_UnaryOperationNode, bindParams, exec, ↓call_v_val, ↓call_s_dt, hb, evalE, evalA, evalKw, Fr.set, Fr.get,
+        List.lookup, blankRow, St.new, relateV, linkFrom, newVal, setRef, partnerOk, linkKey, hop, hk, ha, kwStr, truthy,
+        h1, h2, unTy, Flat.boolUnOps, ho, List.getElem?_append_left hlt, navSteps, navStep, ht]
+
+/-- the R820 type `accept_BinaryOperationNode` selects, as the model's `typeOf` states it -/
+def binTy (op t : String) : String :=
+  if Flat.compareOps.contains op then "boolean"
+  else if ["|", "+", "&", "^", "-"].contains op && ["inst_ref<Object>", "inst_ref_set<Object>"].contains t then "inst_ref_set<Object>"
+  else t
+
+theorem nav_type (g : G) (l : Nat) :
+    navSteps g (.inst l) [⟨"S_DT", 820, ""⟩] = some (match g.tys.lookup l with | some t => .dt t | none => .none) := by
+  simp [navSteps, navStep]
+
+theorem dt_beq (a b : String) : (V.dt a == V.dt b) = decide (a = b) := by
+  by_cases h : a = b <;> simp [h]
+
+theorem nav_generic (g : G) (t : String) (h : t = "inst_ref<Object>" ∨ t = "inst_ref_set<Object>") :
+    navSteps g (.dt t) [⟨"S_IRDT", 17, ""⟩, ⟨"O_OBJ", 123, ""⟩, ⟨"S_IRDT", 123, ""⟩] = some .none := by
+  rcases h with rfl | rfl <;> simp [navSteps, navStep]
+
+theorem nav_none (g : G) (s : Pyx.Gen.PbShape.Step) : navSteps g .none [s] = some .none := by
+  simp [navSteps, navStep]
+
+def binRes (g2 : G) (op t : String) (l r : Nat) : Option (V × G) :=
+  some (.inst (newVal g2.st).1,
+        { g2 with st := ((newVal g2.st).2.new (.bin (newVal g2.st).1 (lowerStr op) l r)).2,
+                  tys := ((newVal g2.st).1, binTy (lowerStr op) t) :: g2.tys })
+
+section Binary
+variable (fc : FCtx) (nd : Node) (g g1 g2 : G) (n l r bl br : Nat) (op t : String) (accL accR : Acc)
+    (hop : nd.strs.lookup "operator" = some op)
+    (hkl : nd.kids.lookup "left" = some accL) (hkr : nd.kids.lookup "right" = some accR)
+    (hal : accL [] g = (.inst l, g1)) (har : accR [] g1 = (.inst r, g2)) (hb : BlkOK g2.st)
+    (hl : g2.st.pop[l]? = some (.val bl)) (hr : g2.st.pop[r]? = some (.val br))
+    (ht : g2.tys.lookup l = some t)
+include hop hkl hkr hal har hb hl hr ht
+
+theorem binary_cmp (h1 : lowerStr op = "<" ∨ lowerStr op = "<=" ∨ lowerStr op = "==" ∨ lowerStr op = "!=" ∨ lowerStr op = ">=" ∨
+      lowerStr op = ">" ∨ lowerStr op = "and" ∨ lowerStr op = "or") :
+    callFn (mkEnv fc nd) (n + 40) accept_BinaryOperationNode [.node] [] g = binRes g2 op t l r := by
+  obtain ⟨⟨pop, scopes, ok⟩, lval, tys⟩ := g2
+  have hltl : l < pop.length := by
+    rcases Nat.lt_or_ge l pop.length with h | h
+    · exact h
+    · simp [List.getElem?_eq_none h] at hl
+  have hltr : r < pop.length := by
+    rcases Nat.lt_or_ge r pop.length with h | h
+    · exact h
+    · simp [List.getElem?_eq_none h] at hr
+  simp only at hl hr ht hb
+  simp [binRes, callFn, accept_BinaryOperationNode, bindParams, exec, ↓call_v_val, ↓call_s_dt, hb, evalE, evalA, evalKw, Fr.set, Fr.get,
+      List.lookup, blankRow, St.new, relateV, linkFrom, newVal, setRef, partnerOk, linkKey, hop, hkl, hkr, hal, har, kwStr, truthy,
+      h1, binTy, Flat.compareOps, hl, hr, List.getElem?_append_left hltl, List.getElem?_append_left hltr,
+      nav_type, ht]
+
+theorem binary_arith (h1 : ¬ (lowerStr op = "<" ∨ lowerStr op = "<=" ∨ lowerStr op = "==" ∨ lowerStr op = "!=" ∨ lowerStr op = ">=" ∨
+      lowerStr op = ">" ∨ lowerStr op = "and" ∨ lowerStr op = "or")) (h2 : ¬ (lowerStr op = "|" ∨ lowerStr op = "+" ∨ lowerStr op = "&" ∨ lowerStr op = "^" ∨ lowerStr op = "-")) :
+    callFn (mkEnv fc nd) (n + 40) accept_BinaryOperationNode [.node] [] g = binRes g2 op t l r := by
+  obtain ⟨⟨pop, scopes, ok⟩, lval, tys⟩ := g2
+  have hltl : l < pop.length := by
+    rcases Nat.lt_or_ge l pop.length with h | h
+    · exact h
+    · simp [List.getElem?_eq_none h] at hl
+  have hltr : r < pop.length := by
+    rcases Nat.lt_or_ge r pop.length with h | h
+    · exact h
+    · simp [List.getElem?_eq_none h] at hr
+  simp only at hl hr ht hb
+  simp [binRes, callFn, accept_BinaryOperationNode, bindParams, exec, ↓call_v_val, ↓call_s_dt, ↓dt_beq, hb, evalE, evalA, evalKw, Fr.set, Fr.get,
+      List.lookup, blankRow, St.new, relateV, linkFrom, newVal, setRef, partnerOk, linkKey, hop, hkl, hkr, hal, har, kwStr, truthy,
+      h1, h2, binTy, Flat.compareOps,
+      hl, hr, List.getElem?_append_left hltl, List.getElem?_append_left hltr, nav_type, ht]
+
+/-- comparison / logical operators and the operators that are no set operator (`*`, `/`, `%`); the branch of
+    `|  +  &  ^  -` (type test against the generic reference types) is not proved -/
+theorem binary_eq (h2 : ¬ (lowerStr op = "|" ∨ lowerStr op = "+" ∨ lowerStr op = "&" ∨ lowerStr op = "^" ∨ lowerStr op = "-")) :
+    callFn (mkEnv fc nd) (n + 40) accept_BinaryOperationNode [.node] [] g = binRes g2 op t l r := by
+  by_cases h1 : lowerStr op = "<" ∨ lowerStr op = "<=" ∨ lowerStr op = "==" ∨ lowerStr op = "!=" ∨ lowerStr op = ">=" ∨
+      lowerStr op = ">" ∨ lowerStr op = "and" ∨ lowerStr op = "or"
+  · exact binary_cmp fc nd g g1 g2 n l r bl br op t accL accR hop hkl hkr hal har hb hl hr ht h1
+  · exact binary_arith fc nd g g1 g2 n l r bl br op t accL accR hop hkl hkr hal har hb hl hr ht h1 h2
+end Binary
+
+theorem real_eq (fc : FCtx) (nd : Node) (g : G) (n : Nat) (v : String) (hb : BlkOK g.st)
+    (hv : nd.strs.lookup "value" = some v) :
+    callFn (mkEnv fc nd) (n + 20) accept_RealNode [.node] [] g
+      = some (.inst (buildExpr fc (.real v) g.st).1,
+              { g with st := (buildExpr fc (.real v) g.st).2, tys := ((buildExpr fc (.real v) g.st).1, "real") :: g.tys }) := by
+  simp [callFn, accept_RealNode, bindParams, exec, ↓call_v_val, ↓call_s_dt, hb, evalE, evalA, evalKw, Fr.set, Fr.get,
+    List.lookup, blankRow, St.new, relateV, linkFrom, newVal, setRef, partnerOk, linkKey, buildExpr, hv, kwStr]
+
+theorem string_eq (fc : FCtx) (nd : Node) (g : G) (n : Nat) (v : String) (hb : BlkOK g.st)
+    (hv : nd.strs.lookup "value" = some v) :
+    callFn (mkEnv fc nd) (n + 20) accept_StringNode [.node] [] g
+      = some (.inst (buildExpr fc (.str v) g.st).1,
+              { g with st := (buildExpr fc (.str v) g.st).2, tys := ((buildExpr fc (.str v) g.st).1, "string") :: g.tys }) := by
+  simp [callFn, accept_StringNode, bindParams, exec, ↓call_v_val, ↓call_s_dt, hb, evalE, evalA, evalKw, Fr.set, Fr.get,
+    List.lookup, blankRow, St.new, relateV, linkFrom, newVal, setRef, partnerOk, linkKey, buildExpr, hv, kwStr]
+
 end Pyx.PbShape
